@@ -40,7 +40,7 @@ def run (m : Mode) (proto : String) (b : Bytes) : R :=
         (match GV.Model.MsgWrappers.special name with
          | some f =>
            (match f m t with
-            | .val v => .ok s!"ok {name}_{render v}"
+            | .val v => if dupKeys v then .err else .ok s!"ok {name}_{render v}"
             | .rej => .err
             | .unknown => .opaque)
          | none => .opaque)
